@@ -23,8 +23,10 @@
   writer passed), resolved}`.  `checked` is a ghost field: the successful
   `checkCurrentSerialInTransaction` calls of the transaction.
 
-  Not modelled here: undo / deletion records, pack, restore, the oid counter, quota, blobs, the
-  file layout (see FileStore/TwoPC models of C01/C04/C05).  Core Lean only.
+  Un-creation records (FileStorage.deleteObject, undo of a creation) are revisions without data:
+  they count as the current revision for the serial comparison, cannot be loaded, and make getTid
+  raise POSKeyError.  Not modelled here: pack, restore, the oid counter, quota, blobs, the file
+  layout (see FileStore/TwoPC models of C01/C04/C05).  Core Lean only.
 -/
 import ZodbModel.Resolve
 namespace ZodbModel.StoreRules
@@ -38,6 +40,7 @@ structure Rev where
   data : Record          -- what was stored
   wanted : Record        -- what the writer passed
   resolved : Bool        -- stored through conflict resolution
+  deleted : Bool := false   -- un-creation record (`deleteObject`, undo of the creation): no data
 deriving DecidableEq, Repr
 
 structure Txn where
@@ -52,7 +55,17 @@ def Txn.has (t : Txn) (o : Oid) : Bool := t.recs.any (fun r => r.oid == o)
 
 def recData : List Rev → Oid → Option Record
   | [], _ => none
-  | r :: rs, o => if r.oid = o then some r.data else recData rs o
+  | r :: rs, o => if r.oid = o then (if r.deleted then none else some r.data) else recData rs o
+
+/-- is the (last) record a transaction wrote for `o` an un-creation record -/
+def recDeleted : List Rev → Oid → Bool
+  | [], _ => false
+  | r :: rs, o => if r.oid = o then r.deleted else recDeleted rs o
+
+/-- the current revision of `o` is an un-creation record (`h.plen == 0 and h.back == 0`) -/
+def currentDeleted : Hist → Oid → Bool
+  | [], _ => false
+  | t :: older, o => if t.recs.any (fun r => r.oid == o) then recDeleted t.recs o else currentDeleted older o
 
 def Txn.data (t : Txn) (o : Oid) : Option Record := recData t.recs o
 
@@ -159,13 +172,14 @@ inductive Op where
   | begin  (t : TxnId) (tid : Tid)
   | store  (t : TxnId) (oid : Oid) (serial : Tid) (data : Record)
   | check  (t : TxnId) (oid : Oid) (serial : Tid)      -- checkCurrentSerialInTransaction
+  | delete (t : TxnId) (oid : Oid) (serial : Tid)      -- FileStorage.deleteObject (IExternalGC)
   | vote   (t : TxnId)
   | finish (t : TxnId)
   | abort  (t : TxnId)
 deriving DecidableEq, Repr
 
 def Op.actor : Op → TxnId
-  | .begin t _ | .store t _ _ _ | .check t _ _ | .vote t | .finish t | .abort t => t
+  | .begin t _ | .store t _ _ _ | .check t _ _ | .delete t _ _ | .vote t | .finish t | .abort t => t
 
 inductive Out where
   | ok
@@ -175,6 +189,7 @@ inductive Out where
   | readConflict                 -- ReadConflictError
   | keyError                     -- POSKeyError (getTid of an unknown oid)
   | txnError                     -- StorageTransactionError
+  | unsupported                  -- the storage has no such method (deleteObject: FileStorage only)
   | voted (resolved : List Oid)  -- return value of tpc_vote
   | finished (tid : Tid)         -- return value of tpc_finish
 deriving DecidableEq, Repr
@@ -254,6 +269,15 @@ def storeK (E : Env) (s : Sys) (oid : Oid) (serial : Tid) (data : Record) : Step
                             innerResolved := if res then oid :: s.innerResolved else s.innerResolved },
             out := .resolvedStore, calls := t.call.toList ++ r.calls }
 
+/-- placeholder carried by an un-creation record (it has no data; `recData` never returns it) -/
+def tomb : Record := { hdr := { cls := 0, args := 0 }, state := .atom 0 }
+
+/-- `FileStorage.getTid` raises POSKeyError when the current record is an un-creation record -/
+def checkDeleted (s : Sys) (oid : Oid) : Bool :=
+  match s.kind with
+  | .simple .file => currentDeleted s.hist oid
+  | _ => false
+
 def release (s : Sys) : Sys :=
   { s with lock := none, staged := [], checked := [], resolved := [], innerResolved := [],
            voted := false }
@@ -275,12 +299,30 @@ def step (E : Env) (s : Sys) : Op → StepRes
     else { sys := s, out := .txnError, calls := [] }
   | .check t oid serial =>
     if s.lock = some t then
+      if checkDeleted s oid then { sys := s, out := .keyError, calls := [] } else
       match curK s.kind s.hist s.base oid with
       | none => { sys := s, out := .keyError, calls := [] }
       | some ct =>
         if ct = serial then
           { sys := { s with checked := (oid, serial) :: s.checked }, out := .ok, calls := [] }
         else { sys := s, out := .readConflict, calls := [] }
+    else { sys := s, out := .txnError, calls := [] }
+  | .delete t oid serial =>
+    -- `old = self._index_get(oid, 0); if not old: raise POSKeyError;
+    --  if oldserial != committed_tid: raise ConflictError` — no resolution; then an un-creation
+    --  record is written
+    if s.lock = some t then
+      (match s.kind with
+       | .simple .file =>
+         (match currentTid s.hist oid with
+          | none => { sys := s, out := .keyError, calls := [] }
+          | some ct =>
+            if serial = ct then
+              { sys := { s with staged := { oid := oid, base := serial, data := tomb, wanted := tomb,
+                                            resolved := false, deleted := true } :: s.staged },
+                out := .ok, calls := [] }
+            else { sys := s, out := .conflict, calls := [] })
+       | _ => { sys := s, out := .unsupported, calls := [] })
     else { sys := s, out := .txnError, calls := [] }
   | .vote t =>
     if s.lock = some t then
